@@ -22,12 +22,15 @@ BASES = [('plain', 'latin_1', False), ('plain', 'cp500', False), ('plain', 'lati
          ('de43', 'latin_1', False), ('typed', 'latin_1', False), ('typed', 'cp500', False), ('typed', 'ascii', True),
          ('gen', 'latin_1', False), ('min', 'latin_1', False), ('maxvar', 'latin_1', False), ('maxvar', 'cp500', True),
          ('z_de2', 'latin_1', False), ('z_pds', 'latin_1', False), ('z_icc', 'cp500', False), ('z_all', 'latin_1', False),
-         ('z_all', 'cp500', True)]
+         ('z_all', 'cp500', True), ('u8_fixed', 'utf-8', False), ('u8_var', 'utf-8', False)]
 
 
 def base_of(name, enc, hx):
     if name.startswith('z_'):
         data, st = corpus.zero_length_bases(enc, hx)[name]
+        return data, st, corpus.cfg_of('PKG'), 'PKG'
+    if name.startswith('u8_'):
+        data, st = corpus.multibyte_bases()[name]
         return data, st, corpus.cfg_of('PKG'), 'PKG'
     return corpus.encoded(name, enc, hx)
 
@@ -78,11 +81,14 @@ def retile(data, cfg, enc, hx, out):
             elif proc == 'PAN':
                 lval = None      # the masked form of a PAN shorter than 10 has another length (outside C16's domain)
             elif proc == 'PAN-PREFIX':
-                lval = len(val) if isinstance(val, str) and len(val) < 9 else None
+                lval = len(val.encode(enc, 'replace')) if isinstance(val, str) and len(val) < 9 else None
             elif typ in ('int', 'long', 'decimal', 'datetime'):
                 lval = None
             elif isinstance(val, str):
-                lval = len(val)
+                try:
+                    lval = len(val.encode(enc))      # lengths on the wire count bytes
+                except UnicodeEncodeError:
+                    lval = None
             if plain_digits(ptxt):
                 ln = int(ptxt)
                 if lval is not None and lval != ln:
